@@ -192,6 +192,10 @@ def check(ctx, rep):
                 ok = a == ("bin", "+", ("list", (("param", fi.params[0]),)), ("listof", ("seq", (), ("param", fi.vararg), 0), ())) or (isinstance(a, tuple) and a[0] in ("bin", "list", "seq") and contains(a, ("param", fi.params[0])) and contains(a, ("param", fi.vararg)))
                 rep.ob("R-FANOUT", "%s: the operation is built over all inputs" % fname, ok and isinstance(p.value, tuple) and p.value[0] == "attr" and p.value[2] == roles.op_roles(ctx, prog.cls(cname)).out, "constructed with %s" % (fmt(a) if a else None), where_of(fi, mk[0].node))
         rep.require(kinds == {"single", "many"}, "%s: expected single-input and many-input paths" % fname)
+    # the failure rows end in copy_exception: it must store the exception on every way out (shared with C01)
+    from .c01 import copy_complete_rule
+    copy_complete_rule(ctx, rep, "R-TABLE")
+
 
 
 def _chain_cancel(ctx, rep):
